@@ -1203,3 +1203,182 @@ func init() {
 			return out
 		}})
 }
+
+// ---- FIELDUNSET
+//
+// An unexported struct field that some function reads but no code of the module ever assigns (no assignment, no
+// composite-literal key, no address taken, no pointer-receiver method called on it, no positional literal of its
+// struct) always holds its zero value: an accessor built on it (`Key()` returning a copy of `prng.key`) returns
+// nothing. Such a field is a forgotten store.
+func scanFieldUnset(c *core.Ctx) []ob {
+	var out []ob
+	type fstat struct {
+		reads, writes int
+		readPos       token.Pos
+		owner         string
+	}
+	stats := map[*types.Var]*fstat{}
+	get := func(v *types.Var) *fstat {
+		v = fieldOrigin(v)
+		s := stats[v]
+		if s == nil {
+			s = &fstat{}
+			stats[v] = s
+		}
+		return s
+	}
+	positional := map[*types.Struct]bool{}
+	wholeAssigned := map[types.Type]bool{}
+	for _, pk := range c.Pkgs {
+		if inExamples(pk) {
+			continue
+		}
+		info := pk.TypesInfo
+		for _, file := range pk.Syntax {
+			if core.IsTestSupportFile(c.RelFile(file.Pos())) {
+				continue
+			}
+			pm := parentMap(file)
+			ast.Inspect(file, func(x ast.Node) bool {
+				switch v := x.(type) {
+				case *ast.CompositeLit:
+					st := structOf(info.TypeOf(v))
+					if st == nil {
+						return true
+					}
+					for i, el := range v.Elts {
+						if kv, ok := el.(*ast.KeyValueExpr); ok {
+							if id, ok := kv.Key.(*ast.Ident); ok {
+								if f, ok := info.Uses[id].(*types.Var); ok && f.IsField() {
+									get(f).writes++
+								}
+							}
+						} else if i < st.NumFields() {
+							get(st.Field(i)).writes++
+							positional[st] = true
+						}
+					}
+				case *ast.SelectorExpr:
+					sel := info.Selections[v]
+					if sel == nil || sel.Kind() != types.FieldVal {
+						return true
+					}
+					f, ok := sel.Obj().(*types.Var)
+					if !ok {
+						return true
+					}
+					s := get(f)
+					// classify the use
+					var node ast.Node = v
+					parent := pm[node]
+					for {
+						if p, ok := parent.(*ast.ParenExpr); ok {
+							node, parent = p, pm[p]
+							continue
+						}
+						break
+					}
+					write := false
+					switch p := parent.(type) {
+					case *ast.AssignStmt:
+						for _, l := range p.Lhs {
+							if l == node {
+								write = true
+							}
+						}
+					case *ast.IncDecStmt:
+						write = true
+					case *ast.UnaryExpr:
+						if p.Op == token.AND {
+							write = true
+						}
+					case *ast.SelectorExpr:
+						// method call with a pointer receiver on an addressable field: may store into it
+						if ms := info.Selections[p]; ms != nil && ms.Kind() == types.MethodVal {
+							if sg, ok := ms.Obj().Type().(*types.Signature); ok && sg.Recv() != nil {
+								if _, isPtr := sg.Recv().Type().(*types.Pointer); isPtr {
+									if _, fieldIsPtr := f.Type().(*types.Pointer); !fieldIsPtr {
+										write = true
+									}
+								}
+							}
+						}
+					case *ast.RangeStmt:
+						if p.Key == node || p.Value == node {
+							write = true
+						}
+					}
+					if write {
+						s.writes++
+					} else {
+						s.reads++
+						if s.readPos == token.NoPos {
+							s.readPos = v.Pos()
+						}
+					}
+				case *ast.AssignStmt:
+					// *x = T{...} / x = y of a struct type assigns every field
+					for _, l := range v.Lhs {
+						if t := info.TypeOf(l); t != nil {
+							if _, ok := t.Underlying().(*types.Struct); ok {
+								wholeAssigned[t] = true
+							}
+						}
+					}
+				}
+				return true
+			})
+		}
+	}
+	n := 0
+	for _, pk := range c.Pkgs {
+		if inExamples(pk) {
+			continue
+		}
+		scope := pk.Types.Scope()
+		for _, nm := range scope.Names() {
+			tn, ok := scope.Lookup(nm).(*types.TypeName)
+			if !ok {
+				continue
+			}
+			st, ok := tn.Type().Underlying().(*types.Struct)
+			if !ok {
+				continue
+			}
+			if core.IsTestSupportFile(c.RelFile(tn.Pos())) {
+				continue
+			}
+			for i := 0; i < st.NumFields(); i++ {
+				f := st.Field(i)
+				if f.Exported() || f.Embedded() || f.Name() == "_" {
+					continue
+				}
+				s := stats[fieldOrigin(f)]
+				if s == nil || s.reads == 0 {
+					continue
+				}
+				n++
+				key := fmt.Sprintf("FIELDUNSET:%s.%s.%s", core.ShortPkg(pk.PkgPath), tn.Name(), f.Name())
+				if s.writes > 0 || wholeAssigned[tn.Type()] || wholeAssigned[types.NewPointer(tn.Type())] {
+					out = append(out, okOb("FIELDUNSET", key, c.Rel(f.Pos()), "assigned somewhere in the module", true))
+					continue
+				}
+				// decoders that fill the struct through reflection / whole-value assignment are rare here; unsafe none
+				out = append(out, violOb("FIELDUNSET", key, c.Rel(s.readPos), fmt.Sprintf("field %s.%s is read at %s but never assigned anywhere in the module: it always holds its zero value, so whatever is computed from it is empty", tn.Name(), f.Name(), c.Rel(s.readPos))))
+			}
+		}
+	}
+	c.Stats["fieldunset_fields"] = n
+	return out
+}
+
+func init() {
+	all := []string{"C17", "C10", "C08"}
+	core.Register(&core.Rule{Name: "FIELDUNSET", Props: all,
+		Doc: "every unexported struct field that is read somewhere is assigned somewhere in the module (assignment, literal key, address taken, pointer-receiver method call, or whole-struct assignment)",
+		Run: func(c *core.Ctx) []ob {
+			out := scanFieldUnset(c)
+			out = append(out, core.Floor("FIELDUNSET", nil, "unexported fields that are read", c.Stats["fieldunset_fields"], 150)...)
+			return out
+		}})
+}
